@@ -177,6 +177,14 @@ def _():
         "\t\tRequestLog:     instanceOpts.RequestLog,\n\t}\n\tli.validationOpts = validationOpts\n\tli.validationOpts.currentTime = validationOpts.currentTime\n")
 
 
+@edit("b7-per-call-time-through-method")
+def _():
+    # b1 with the choice "configured instant, else the time source" made in a method of the log
+    rep(H, VC, "\topts := li.validationOpts\n\topts.currentTime = li.validationTime()\n\tvalidPath, err := ValidateChain(req.Chain, opts)\n")
+    rep(H, "// verifyAddChain is used by add-chain and add-pre-chain.",
+        "// validationTime is the instant to judge expiry at: the configured one, else the log's time source.\nfunc (li *logInfo) validationTime() time.Time {\n\tif t := li.validationOpts.currentTime; !t.IsZero() {\n\t\treturn t\n\t}\n\treturn li.TimeSource.Now()\n}\n\n// verifyAddChain is used by add-chain and add-pre-chain.")
+
+
 def sh(*a):
     return subprocess.run(a, cwd=V, check=True, capture_output=True, text=True).stdout
 
